@@ -56,10 +56,16 @@ type BucketSet struct {
 	MaxBuckets int
 
 	mLck sync.Mutex
-	m    map[string]*struct {
-		r       L
-		lastUse time.Time
-	}
+	m    map[string]*bucket
+}
+
+type bucket struct {
+	r       L
+	lastUse time.Time
+
+	// Amount of Take calls that are waiting on r or were successful and are
+	// not yet followed by Release. Such bucket cannot be removed.
+	users int
 }
 
 func NewBucketSet(new_ func() L, reapInterval time.Duration, maxBuckets int) *BucketSet {
@@ -67,10 +73,7 @@ func NewBucketSet(new_ func() L, reapInterval time.Duration, maxBuckets int) *Bu
 		New:          new_,
 		ReapInterval: reapInterval,
 		MaxBuckets:   maxBuckets,
-		m: map[string]*struct {
-			r       L
-			lastUse time.Time
-		}{},
+		m:            map[string]*bucket{},
 	}
 }
 
@@ -91,12 +94,11 @@ func (r *BucketSet) take(key string) L {
 		now := time.Now()
 		// Attempt to get rid of stale buckets.
 		for k, v := range r.m {
-			if v.lastUse.Sub(now) > r.ReapInterval {
-				// Drop the bucket, if there happen to be any waiting Take for it.
-				// It will return 'false', but this is fine for us since this
-				// whole 'reaping' process will run only when we are under a
-				// high load and dropping random requests in this case is a
-				// more or less reasonable thing to do.
+			if v.users == 0 && now.Sub(v.lastUse) > r.ReapInterval {
+				// Only buckets nobody waits on or holds are dropped:
+				// Release finds the limiter by key, removing a bucket in use
+				// would make it release a resource of a different (new)
+				// bucket.
 				v.r.Close()
 				delete(r.m, k)
 			}
@@ -108,20 +110,26 @@ func (r *BucketSet) take(key string) L {
 		}
 	}
 
-	bucket, ok := r.m[key]
+	b, ok := r.m[key]
 	if !ok {
-		r.m[key] = &struct {
-			r       L
-			lastUse time.Time
-		}{
-			r:       r.New(),
-			lastUse: time.Now(),
-		}
-		bucket = r.m[key]
+		b = &bucket{r: r.New()}
+		r.m[key] = b
 	}
-	r.m[key].lastUse = time.Now()
+	b.lastUse = time.Now()
+	b.users++
 
-	return bucket.r
+	return b.r
+}
+
+// untake reverts the bookkeeping done by take after the limiter refused
+// the request.
+func (r *BucketSet) untake(key string) {
+	r.mLck.Lock()
+	defer r.mLck.Unlock()
+
+	if b, ok := r.m[key]; ok && b.users > 0 {
+		b.users--
+	}
 }
 
 func (r *BucketSet) Take(key string) bool {
@@ -133,7 +141,11 @@ func (r *BucketSet) Take(key string) bool {
 	if bucket == nil {
 		return false
 	}
-	return bucket.Take()
+	if !bucket.Take() {
+		r.untake(key)
+		return false
+	}
+	return true
 }
 
 func (r *BucketSet) Release(key string) {
@@ -144,11 +156,14 @@ func (r *BucketSet) Release(key string) {
 	r.mLck.Lock()
 	defer r.mLck.Unlock()
 
-	bucket, ok := r.m[key]
+	b, ok := r.m[key]
 	if !ok {
 		return
 	}
-	bucket.r.Release()
+	b.r.Release()
+	if b.users > 0 {
+		b.users--
+	}
 }
 
 func (r *BucketSet) TakeContext(ctx context.Context, key string) error {
@@ -160,5 +175,9 @@ func (r *BucketSet) TakeContext(ctx context.Context, key string) error {
 	if bucket == nil {
 		return ErrBucketSetFull
 	}
-	return bucket.TakeContext(ctx)
+	if err := bucket.TakeContext(ctx); err != nil {
+		r.untake(key)
+		return err
+	}
+	return nil
 }
